@@ -113,12 +113,17 @@ def tls13_settings(**kw):
     return s
 
 
+class _NoDecref(object):
+    def _decref_socketios(self):
+        pass
+
+
 class Conn(object):
     """a handshaken lab plus everything needed to run ops on it and describe it to the model"""
 
     def __init__(self, ver=(3, 4), client_cert=True, tickets=0, hb=True, hb_cb=(True, True),
                  close_socket=(True, True), ignore_abrupt=(False, False), cipher=None, tamper=0,
-                 cert_required=False, record_size=None):
+                 cert_required=False, record_size=None, rsl=None):
         from harness import lab
         self.lab_mod = lab
         self.ver = ver
@@ -128,6 +133,8 @@ class Conn(object):
         ss = tls13_settings() if ver == (3, 4) else lab.settings(minv=ver, maxv=ver)
         for s in (cs, ss):
             s.use_heartbeat_extension = bool(hb)
+            if rsl:
+                s.record_size_limit = rsl          # record_size_limit extension (RFC 8449) in force
             if cipher:
                 s.cipherNames = [cipher]
         if hb and hb_cb[0]:
@@ -164,6 +171,7 @@ class Conn(object):
                 conn.recordSize = record_size
         self.s.client_cert_required = cert_required
         self.record_size = record_size
+        self.files = []             # file objects from makefile(), kept alive (closing one is conn.close())
         if ver == (3, 4):
             self.track = {("c", "cl"): GenTracker(self.c.session.cl_app_secret), ("c", "sr"): GenTracker(self.c.session.sr_app_secret),
                           ("s", "cl"): GenTracker(self.s.session.cl_app_secret), ("s", "sr"): GenTracker(self.s.session.sr_app_secret)}
@@ -219,9 +227,9 @@ class Conn(object):
             chain = "1" if ch == self.client_chain else "other"
         log = self.hblog[w]
         hb = "%d:%s:%d" % (len(log), hx(log[-1][0]), log[-1][1]) if log else "0"
-        return "closed=%d res=%d rg=%s wg=%s tk=%d chain=%s reqs=%d hb=%s buf=%d" % (
+        return "closed=%d res=%d rg=%s wg=%s tk=%d chain=%s reqs=%d hb=%s buf=%d rc=%d" % (
             conn.closed, bool(conn.session.resumable), rg, wg, len(conn.tickets), chain,
-            len(conn._cert_requests), hb, len(conn._readBuffer))
+            len(conn._cert_requests), hb, len(conn._readBuffer), conn._refCount)
 
     def out_str(self, res):
         kind, val = res
@@ -262,6 +270,10 @@ class Conn(object):
             return M.Message(ContentType.handshake, bytearray([spec[1], 0, 0, 0]))
         if k == "hsm":
             return M.Message(ContentType.handshake, bytearray([spec[1], 0, 0, 2, 0, 0]))
+        if k == "kuco":
+            # KeyUpdate and a second handshake message in ONE record
+            nst = M.NewSessionTicket().create(3600, 7, bytearray(b"\x01"), bytearray(b"forged-ticket" * 3), [])
+            return M.Message(ContentType.handshake, M.KeyUpdate().create(spec[1]).write() + nst.write())
         if k == "hb":
             return M.Heartbeat().create(spec[1], bytearray(spec[2]), spec[3])
         if k == "hbbad":
@@ -347,6 +359,11 @@ class Conn(object):
             res = L.op(who, conn.write_heartbeat(bytearray(op[2]), op[3]), pump_other=False)
         elif name == "close":
             res = L.op(who, conn.closeAsync(), pump_other=False)
+        elif name == "makefile":
+            f = conn.makefile("rb")
+            f._sock = _NoDecref()       # garbage collection of the file object must not close the connection
+            self.files.append(f)
+            res = ("ok", None)
         elif name == "inject":
             msg = self.build_msg(w, op[2:])
             fs = self.fs[w]
@@ -386,6 +403,8 @@ class Conn(object):
             return "op %s hb %s %d" % (w, hx(op[2]), op[3])
         if name == "close":
             return "op %s close" % w
+        if name == "makefile":
+            return "op %s makefile" % w
         if name == "inject":
             return "op %s inject %s" % (w, Conn.msg_line(op[2:]))
         if name == "kill":
